@@ -13,6 +13,14 @@ def plan(ctx):
         obs.append(Obligation(f"engine_calls.{fn}", "xh", "c05", "engine_calls", param={"fn": fn}, timeout=T * 4,
                               bounds="flag string: every subset of {i,m,s,x} in lower or upper case, or None, or omitted (symbolic); the stubbed engine reports 0..4 matches (symbolic); clock readings are arbitrary non-decreasing instants (symbolic increments 0..10 s); every re/regex module and precompiled pattern reachable from functions.py is stubbed; the primary engine may reject the pattern (symbolic)",
                               desc=f"{fn}: every entry into a regular-expression engine carries timeout in [0, 0.1]; at most 2 engine calls per builtin call"))
+    obs.append(Obligation("call_sequence", "xh", "c05", "call_sequence", timeout=T * 4,
+                          bounds="4 consecutive calls: one builtin twice (both refused by the engine, or neither), then any two builtins, the first of them refused or not (all symbolic)",
+                          desc="every engine entry of every call carries a timeout in [0, 0.1], also after earlier calls failed inside the engine"))
+    for fn in ('match', 'match_groups', 'match_all'):
+        if fn in FUNCTIONS:
+            obs.append(Obligation(f"python_steps.{fn}", "xh", "c05", "python_steps", param={"fn": fn}, timeout=T * 4,
+                                  bounds="pattern length from {0, 50, 65535, 65537, 100000}, subject length 0 or 100000 (indices symbolic); one or two consecutive calls; engine stubbed (one match)",
+                                  desc=f"{fn}: Python lines executed in functions.py <= 3000 + 4 * (len(pattern) + len(subject)) (counted with sys.monitoring): no unbounded / super-linear Python-level phase around the engine call"))
     return {
         "obligations": obs, "uncovered": uncovered,
         "explanation": "REDUCED SCOPE: wall-clock behaviour of the `regex` C engine cannot be encoded. Decided with CrossHair (z3): with "
@@ -20,7 +28,7 @@ def plan(ctx):
                        "each engine entry carries the small timeout and the number of engine entries is bounded.",
         "functions": ["smartquery.functions._match", "_match_groups", "_match_all", "_parse_flags"],
         "files": ["smartquery/functions.py"],
-        "bounds": "flag subsets of {i,m,s,x}; engine hit count 0..4",
+        "bounds": "flag subsets of {i,m,s,x}; engine hit count 0..4; call sequences of length 4; pattern / subject lengths up to 10**5 for the line-count bound",
         "outside": "the timing claim itself: rests on the regex module honouring timeout= (and pattern compilation, which has no timeout)",
         "stubs": ["regular-expression engine stub for every re/regex module object and precompiled pattern in smartquery.functions", "nondeterministic clock for time.time/perf_counter/monotonic/process_time"],
         "assumptions": ["regex honours its timeout argument", "pattern compilation time is not covered"],
